@@ -209,6 +209,37 @@ def arrival_mismatch(r):
         if best is None or dj < best[2]: best = (hj, oj, dj, msg)
     return best
 
+def wakeup_mismatch(r, fam):
+    """No-lost-wake-up read off a divergence: on a history on which code and model agreed on EVERYTHING up to some line, the model grants a
+    waiting request at that line and the code does not.  "Able to serve it" is the store's own admission rule, which the model mirrors
+    (lock-step on the unchanged tree: no divergence; for the slotted store and the retrieval side of both conveyors it is also proved).
+    Confirmed on the real code: the request is still pending when the instant is over (the history is run again with a `settle`)."""
+    from judges import parse_line
+    best = None
+    for (j, dj) in r.div:
+        hj, oj, ilj = r.traces[j]
+        mlj = r.model[j]
+        if mlj is None or dj >= len(mlj) or dj >= len(ilj): continue
+        a, b = ilj[dj], mlj[dj]
+        if a.startswith("err") or b in ("GAVEUP",) or "FLAGGED" in b: continue
+        try: (ha, fa), (hb, fb) = parse_line(a), parse_line(b)
+        except Exception: continue
+        if ha != hb: continue
+        missing = [tid for (tid, _) in fb if tid not in [x for (x, _) in fa]]
+        if not missing or [tid for (tid, _) in fa if tid not in [x for (x, _) in fb]]: continue
+        # still pending at the end of the instant on the real code?
+        try:
+            lines = run_impl(hj, list(oj[:dj + 1]) + [("settle",)])
+            later = [tid for (tid, _) in parse_line(lines[-1])[1]] if lines and lines[-1] is not None else []
+        except Exception:
+            continue
+        if missing[0] in later: continue
+        msg = (f"request {missing[0]} is still pending at the end of the instant although the store can serve it from line {dj} on "
+               f"({' '.join(map(str, oj[dj]))}): the store's own admission rule — the reference model, in lock-step agreement with the code on "
+               f"everything before — grants it in that very step (no lost wake-up: a servable waiting reservation is granted at once)")
+        if best is None or len(oj) < len(best[1]): best = (hj, oj, dj, msg)
+    return best
+
 def check_property(pid, tier, seed):
     t0 = time.time()
     say(f"[check {pid}] tier={tier} seed={seed} repo={REPO} src={src_tree_hash()}")
@@ -305,10 +336,13 @@ def check_property(pid, tier, seed):
             if not found and fam in ("slot", "cbelt") and pid in ("C12", "C13"):
                 try: timing = arrival_mismatch(r)
                 except Exception: timing = None
+            if not found and not timing and pid in ("C04", "C10", "C13"):
+                try: timing = wakeup_mismatch(r, fam)
+                except Exception: timing = None
             if timing:
                 hj, oj, k, msg = timing
                 path = checklib.write_replay(pid, seed, "arrival-time", hj, list(oj[:k + 1]),
-                                             dict(detail, message=msg, observed=fmt_hist(hj, oj, run_impl(hj, list(oj[:k + 1])))[-30:]))
+                                             dict(detail, message=msg, observed=fmt_hist(hj, list(oj[:k + 1]), run_impl(hj, list(oj[:k + 1])))[-30:]))
                 violations.append((path, msg))
             elif found:
                 hj, oj = found
